@@ -159,6 +159,10 @@ def encode_cases(rng, quick):
     add(1920, 1080, 12, 2)
     add(320, 180, 2, 6)
     add(176, 144, 1, 4)
+    # halved grids (core_count 2..3): segments of several SBs over several SB rows, band sizes that divide evenly
+    add(352, 288, 2, 3)
+    add(416, 240, 3, 3)
+    add(640, 360, 2, 2)
     if not quick:
         add(1920, 1080, 16, 3, **{"cfg.tile_rows": 1, "cfg.tile_columns": 2})
         add(1280, 720, 4, 3, **{"cfg.tile_rows": 2, "cfg.tile_columns": 1})
@@ -182,10 +186,18 @@ def run_encode(chk, i, case, seed):
     res = enc.run_case("plain", case, prefix, trace=True, sched="%d:30:100" % (seed * 100 + i))
     out = {"case": case, "status": "ok", "why": "", "d": None}
     if res.timed_out:
-        out.update(status="inconclusive", why="encode hit the watchdog (%.0fs)" % res.wall)
+        # a lost segment wake-up shows up as an encode that never ends: it counts when it reproduces (DESIGN 2.7)
+        res2 = enc.run_case("plain", case, prefix + "r", sched="%d:30:100" % (seed * 100 + i + 50))
+        if res2.timed_out:
+            out.update(status="hang", why="encode hit the watchdog twice (%.0fs, %.0fs)" % (res.wall, res2.wall))
+        else:
+            out.update(status="inconclusive", why="encode hit the watchdog once (%.0fs), not on the re-run" % res.wall)
+        enc.cleanup(prefix + "r")
     elif res.res and res.res.get("api_error") == 2:
         out.update(status="rejected")
-    elif enc.crashed(res) or res.res is None or res.res.get("api_error"):
+    elif enc.crashed(res):
+        out.update(status="crash", why="encoder died rc=%s %s" % (res.rc, (res.stderr or "")[-200:]))
+    elif res.res is None or res.res.get("api_error"):
         out.update(status="inconclusive", why="encode failed rc=%s %s" % (res.rc, (res.stderr or "")[-200:]))
     elif not os.path.exists(prefix + ".trace"):
         out.update(status="inconclusive", why="no trace written")
@@ -203,19 +215,24 @@ def account_encode(chk, out):
     if out["status"] == "rejected":
         chk.bump("encode_rejected_config")
         return
+    c = out["case"]
+    sig = "lp=%s %sx%s tiles=%sx%s" % (c.get("cfg.logical_processors"), c.get("width"), c.get("height"),
+                                       c.get("cfg.tile_columns", 0), c.get("cfg.tile_rows", 0))
+    tl = "tiles" if c.get("cfg.tile_columns") or c.get("cfg.tile_rows") else "notiles"
+    if out["status"] in ("crash", "hang"):
+        chk.violation("C24|encode-%s|%s|%s" % (out["status"], tl, common.feature_sig(c)),
+                      "real encode (%s) under H1 perturbation with the H4 trace on: %s" % (sig, out["why"]), case)
+        return
     if out["status"] != "ok":
         chk.inconclusive_case("real encode: %s" % out["why"], case)
         return
     d = out["d"]
     info = d["info"]
-    c = out["case"]
-    sig = "lp=%s %sx%s tiles=%sx%s" % (c.get("cfg.logical_processors"), c.get("width"), c.get("height"),
-                                       c.get("cfg.tile_columns", 0), c.get("cfg.tile_rows", 0))
     if not info["instances_checked"]:
         chk.inconclusive_case("real encode (%s): no H4 segment records in the trace (library built without the H4 hook?)" % sig, case)
         return
     for key, msg in d["viol"]:
-        chk.violation("C24|encode-trace|%s|%s" % (key, "tiles" if c.get("cfg.tile_columns") or c.get("cfg.tile_rows") else "notiles"),
+        chk.violation("C24|encode-trace|%s|%s" % (key, tl),
                       "real encode (%s): %s" % (sig, msg), case)
     chk.bump("encodes_validated")
     chk.bump("encode_pictures_validated", info["pictures"])
